@@ -424,11 +424,13 @@ func (e *OpEngine) DataInstances(want func(string) bool, b DataBounds) []*DataCa
 		}
 		return out
 	}
+	// sizes just beyond every block/chunk constant found in the implementation (empty when there is none)
+	thr0, thr1 := e.thresholdShapes(0), e.thresholdShapes(1)
 	for _, n := range pointwiseUnary {
 		small := DataBounds{MaxRank: 2, Sizes: []int{1, 2}, MaxElts: 4}
-		unary(n, shapesUpTo(small, 0), nil, false)
+		unary(n, append(shapesUpTo(small, 0), thr0...), nil, false)
 	}
-	unary("Scale", shapesUpTo(DataBounds{MaxRank: 2, Sizes: []int{1, 2}, MaxElts: 4}, 0), func(e *OpEngine, d []int) [][]interp.Value {
+	unary("Scale", append(shapesUpTo(DataBounds{MaxRank: 2, Sizes: []int{1, 2}, MaxElts: 4}, 0), thr0...), func(e *OpEngine, d []int) [][]interp.Value {
 		return [][]interp.Value{{interp.FloatV{E: sym.SymE("c")}}}
 	}, false)
 	unary("Pow", shapesUpTo(DataBounds{MaxRank: 2, Sizes: []int{1, 2}, MaxElts: 4}, 0), func(e *OpEngine, d []int) [][]interp.Value {
@@ -457,7 +459,7 @@ func (e *OpEngine) DataInstances(want func(string) bool, b DataBounds) []*DataCa
 	}, false)
 	for _, n := range reducers {
 		ordered := n == "MaxAlong" || n == "MinAlong"
-		unary(n, withDeep(shapesUpTo(b, 1), 1), dimVariants(func(r int) int { return r - 1 }), ordered)
+		unary(n, append(withDeep(shapesUpTo(b, 1), 1), thr1...), dimVariants(func(r int) int { return r - 1 }), ordered)
 	}
 	unary("Reshape", all, func(e *OpEngine, d []int) [][]interp.Value {
 		n := 1
@@ -569,11 +571,19 @@ func (e *OpEngine) DataInstances(want func(string) bool, b DataBounds) []*DataCa
 		}
 	}
 	bpairs := broadcastPairsC(b)
+	for _, d := range thr0 {
+		bpairs = append(bpairs, [2][]int{d, d})
+	}
+	var thrDot, thrMM [][2][]int
+	for _, c := range e.SizeThresholds() {
+		thrDot = append(thrDot, [2][]int{{c + 1}, {c + 1}})
+		thrMM = append(thrMM, [2][]int{{2, c + 1}, {c + 1, 2}}, [2][]int{{c + 1, 2}, {2, 1}})
+	}
 	for _, n := range []string{"Add", "Sub", "Mul", "Div"} {
 		binary(n, bpairs, false, nil)
 	}
-	binary("Dot", dotPairsC(b), false, nil)
-	binary("MatMul", matmulPairsC(b), false, nil)
+	binary("Dot", append(dotPairsC(b), thrDot...), false, nil)
+	binary("MatMul", append(matmulPairsC(b), thrMM...), false, nil)
 	binary("Patch", patchPairsC(b), false, func(e *OpEngine, da, db []int) [][]interp.Value {
 		var vs [][]interp.Value
 		for _, idx := range patchIndexes(da, db) {
@@ -617,7 +627,7 @@ func (e *OpEngine) DataInstances(want func(string) bool, b DataBounds) []*DataCa
 		}
 	}
 	/* ----- operations without a tensor result: compared through OnResult ----- */
-	scalarShapes := withDeep(shapesUpTo(DataBounds{MaxRank: 3, Sizes: []int{1, 2, 3}, MaxElts: 12}, 0), 0)
+	scalarShapes := append(withDeep(shapesUpTo(DataBounds{MaxRank: 3, Sizes: []int{1, 2, 3}, MaxElts: 12}, 0), 0), thr0...)
 	for _, n := range []string{"Sum", "Max", "Min", "Avg", "Mean", "Var", "Std", "NElems", "Shape"} {
 		if !want(n) {
 			continue
